@@ -9,6 +9,9 @@
  *   VC_SCEN 5  field-name order: a name that is not strictly greater (bytewise, shorter first) than the previous one is FORMAT
  *   VC_SCEN 7  lookup that first skips a pending empty container and then overshoots: the cursor rests behind the
  *              container, at the first byte of the name (a failed lookup re-reads at most the one name it overshot)
+ *   VC_SCEN 8  binson_parser_field_with_length (REAL function, real loop) on an object whose next tokens are
+ *              "name scalar END": true iff the name has exactly the looked-up bytes (embedded 0x00 and bytes >= 0x80
+ *              included, full length); a smaller name is passed, a larger one is not consumed
  *   VC_SCEN 6  a malformed token is rejected whatever the scan is (next, enter, leave, verify): skipping validates like entering
  */
 #include <stdlib.h>
@@ -178,6 +181,27 @@ void h_step(void)
                      "the skipped container stays skipped: the cursor is at the first byte of the name it overshot");        /*@ rewind-bounded */
     __CPROVER_assert(p.depth == o_depth && p.current_state == lv && lv->flags == BINSON_STATE_IN_OBJ_EXPECTING_FIELD,
                      "a field is expected next at the same level");                                                           /*@ rewind-state-restored */
+#elif VC_SCEN == 8
+    __CPROVER_assume(lv->flags == BINSON_STATE_IN_OBJ_EXPECTING_FIELD && lv->array_depth == 0 && lv->current_name.bptr == NULL);
+    __CPROVER_assume(p.type == BINSON_PTYPE_OBJECT || p.depth > 1);
+    ref_token nt = ref_scan(buf, n, o_used);
+    __CPROVER_assume(nt.kind == RT_STRING && nt.pay_len <= 4);
+    ref_token vt = ref_scan(buf, n, o_used + nt.len);
+    __CPROVER_assume(vt.kind == RT_BOOL || vt.kind == RT_INT);
+    size_t endpos = o_used + nt.len + vt.len;
+    __CPROVER_assume(endpos < n && buf[endpos] == 0x41);                 /* the object ends behind this one field */
+    size_t ql = nondet_size_t();
+    __CPROVER_assume(ql <= 4);
+    char *q = malloc(ql);
+    __CPROVER_assume(q != NULL);
+    int ord = ref_cmp(buf + nt.pay_off, nt.pay_len, (const uint8_t *) q, ql);
+    bool r = binson_parser_field_with_length(&p, q, ql);
+    __CPROVER_assert(r == (ord == 0), "a lookup succeeds exactly when a field has the looked-up bytes over their full length");   /*@ lookup-iff-present */
+    __CPROVER_assert(p.error_flags == BINSON_ERROR_NONE && p.depth == o_depth, "no error, same level");                              /*@ lookup-no-error */
+    __CPROVER_assert(ord != 0 || (lv->current_name.bptr == buf + nt.pay_off && lv->current_name.bsize == nt.pay_len &&
+                                  p.buffer_used == endpos), "on a hit the getters refer to that field");                          /*@ lookup-hit-positions */
+    __CPROVER_assert(ord <= 0 || p.buffer_used == o_used, "a field with a larger name is not consumed by a failed lookup");           /*@ lookup-miss-keeps-later-fields */
+    __CPROVER_assert(ord >= 0 || p.buffer_used == endpos, "a failed lookup moves only past fields with smaller names (here: to the END)"); /*@ lookup-miss-passes-smaller */
 #endif
     __CPROVER_assert(0, "vacuity control: step harness end reachable");
 }
